@@ -21,6 +21,7 @@ small lexer of my own:
 import ast
 import gc
 import json
+import os
 import re
 import itertools
 
@@ -726,6 +727,10 @@ def run_task(task):
   return part_of(E)
 
 
+def run_group(tasks):
+  return [run_task(t) for t in tasks]
+
+
 def run(tier, report):
   specs = doc_specs(tier)
   cases = rename_cases(tier)
@@ -752,8 +757,13 @@ def run(tier, report):
   tasks = [(tier, name, cname, bundles) for name, _p, _d in specs for cname, bundles in cases
            if not name.startswith('broken-in-') or cname in BROKEN_DOC_CASES]
   gc.freeze()                        # fewer copy-on-write faults in the forked workers
-  for part in pmap(run_task, tasks):
-    E.merge(part)
+  # A few long-lived workers: on the shared 16-core box, system time grows faster than linearly
+  # with the number of engine-loading processes (measured: 2 procs 15 s, 6 procs 115 s, 16 procs
+  # 170-260 s of system time for the same 45 s of work), so more workers make the run slower.
+  nproc = int(os.environ.get('C17_PROCS', '0') or 0) or (4 if tier == 'quick' else 6)
+  for parts in pmap(run_group, [tasks[i::nproc] for i in range(nproc)]):
+    for part in parts:
+      E.merge(part)
   E.finish(exhaustive=True, documents=len(specs), rename_cases=len(cases), stored_formulas=nform)
   report.assumptions.append('predicate_formula.parse_predicate_formula is the trusted parser '
                             '(property C40); "does not parse" means that parser rejects the text')
